@@ -1,5 +1,7 @@
 import AM.Model.Dedup
 import AM.Model.Group
+import AM.Model.Cluster
 import AM.Props.C04
 import AM.Props.C05
 import AM.Props.C01
+import AM.Props.C08
